@@ -3,6 +3,7 @@
 use std::io::{BufRead, Write};
 
 mod compile;
+mod lexparse;
 mod names;
 mod pkg;
 mod resolve;
@@ -35,6 +36,13 @@ fn main() {
                 writeln!(out, "{}", pkg::discover_case(&v)).unwrap();
             }
         }
+        "lexparse" => {
+            for line in stdin.lock().lines() {
+                let line = line.unwrap();
+                let v: serde_json::Value = serde_json::from_str(&line).unwrap();
+                writeln!(out, "{}", lexparse::lexparse_case(&v)).unwrap();
+            }
+        }
         "sep" => {
             for line in stdin.lock().lines() {
                 let line = line.unwrap();
@@ -53,7 +61,21 @@ fn main() {
             for line in stdin.lock().lines() {
                 let line = line.unwrap();
                 let v: serde_json::Value = serde_json::from_str(&line).unwrap();
-                let r = compile::compile_case(&v);
+                let r = match v.get("timeout_ms").and_then(|x| x.as_u64()) {
+                    None => compile::compile_case(&v),
+                    Some(ms) => {
+                        // watchdog: run the case on its own thread (same stack size as the command line); a hang leaks the thread
+                        let (tx, rx) = std::sync::mpsc::channel();
+                        let v2 = v.clone();
+                        let _ = std::thread::Builder::new().stack_size(256 << 20).spawn(move || {
+                            let _ = tx.send(compile::compile_case(&v2));
+                        });
+                        match rx.recv_timeout(std::time::Duration::from_millis(ms)) {
+                            Ok(r) => r,
+                            Err(_) => serde_json::json!({"ok": false, "timeout": true}),
+                        }
+                    }
+                };
                 writeln!(out, "{}", r).unwrap();
                 out.flush().unwrap();
             }
